@@ -23,6 +23,7 @@ EXPLANATION = (
     ' Round-4 triage: (10) a caller of parse_input without an event loop (the synchronous get_input) decodes a held partial sequence itself: every path from its first synchronous parse passes a test of _partial_codes whose true branch parses with wait_for_more=False. Round 5: (11) the SGR mouse decoder finds the first `M` or `m` with one joint test; (12) every os.read() drain loop leaves on an empty read (end of file); (10) now also accepts a wait_for_more argument that can be False (the refined fix 190a3c8 waits while new bytes keep arriving).'
     ' Round 6: (10) after every parse_input call of the synchronous get_input that may leave bytes pending, _partial_codes is tested again before the function returns (the completion step is a loop).'
     ' (13) TAINT: text from the terminal reaches int() in escape.py only after an isascii() and isdigit() test of every field (fix 62201b6).'
+    ' Round 7: (14) SIB: event-name words the decoder can put behind modifier words (mouse, meta) are looked for by containment; (15) the coordinates of an X10 mouse report are taken modulo 256.'
 )
 NOT_DECIDED = (
     "That event names/coordinates are the documented ones for every sequence; equality of event lists under all cuts for value-dependent recognisers "
@@ -653,6 +654,31 @@ def rule_digits_only(ctx: Ctx) -> RuleResult:
     return rr
 
 
+def rule_x10_coordinates(ctx: Ctx) -> RuleResult:
+    """An X10 mouse report carries each coordinate as one byte: value + 33, wrapping at 256 (columns 223..255 arrive as
+    the bytes 0..32).  'with its documented coordinates' therefore needs the subtraction to be taken modulo 256: every
+    coordinate the X10 reader returns (elements 2 and 3 of the event tuple) is a `% 256` of a byte of the report -
+    without it the reports for the right-most columns decode to negative coordinates."""
+    from ..rules.defuse import DefUse
+
+    p = ctx.p
+    rr = RuleResult("BOUND", "C05.15", "the coordinates of an X10 mouse report are the report bytes minus 33 taken modulo 256 (never negative)", floor=2)
+    fi = p.func("urwid.display.escape.KeyqueueTrie.read_mouse_info")
+    du = DefUse(fi)
+    rets = [n for n in du.cfg.nodes if n.kind == "return" and isinstance(n.ast.value, ast.Tuple) and n.ast.value.elts and isinstance(n.ast.value.elts[0], ast.Tuple) and len(n.ast.value.elts[0].elts) == 4]
+    if not rets:
+        raise AnalysisError("read_mouse_info: the return of the (name, button, x, y) event was not found")
+    for r in rets:
+        for pos in (2, 3):
+            e = r.ast.value.elts[0].elts[pos]
+            ex = du.expand(e, r)
+            ok = isinstance(ex, ast.BinOp) and isinstance(ex.op, ast.Mod) and isinstance(ex.right, ast.Constant) and ex.right.value == 256
+            rr.inst(f"coordinate {pos - 2}: {norm(ex, 40)}", True, {"coordinate": ast.unparse(e), "value": norm(ex, 60), "modulo_256": ok})
+            if not ok:
+                rr.add(finding("BOUND", fi, r.ast, f"the {'column' if pos == 2 else 'row'} of an X10 mouse report is returned as `{norm(ex, 50)}`, not taken modulo 256: the bytes 0..32 stand for the coordinates 223..255 and come out negative (ESC [ M 0x20 0x00 0x00 -> ('mouse press', 1, -33, -33))", construct=f"X10 coordinate {ast.unparse(e)} not modulo 256"))
+    return rr
+
+
 def run(ctx: Ctx):
     p = ctx.p
     out = [
@@ -680,6 +706,7 @@ def run(ctx: Ctx):
     out.append(rule_first_terminator(ctx))
     out.append(rule_drain_eof(ctx))
     out.append(rule_digits_only(ctx))
+    out.append(rule_x10_coordinates(ctx))
     from ..rules import nameprefix
 
     out.append(nameprefix.run_nameprefix(ctx.p, "C05.14", ("urwid.display", "urwid.util", "urwid.event_loop.main_loop"), floor=3))
@@ -691,6 +718,7 @@ from ..mutants import Mut  # noqa: E402
 _E = "urwid/display/escape.py"
 _R = "urwid/display/_raw_display_base.py"
 MUTANTS = [
+    Mut("x10-coordinates-without-modulo", _E, "KeyqueueTrie.read_mouse_info", "        x, y = (keys[1] - 33) % 256, (keys[2] - 33) % 256  # supports 0-255", "        x, y = keys[1] - 33, keys[2] - 33", "BOUND|display.escape.KeyqueueTrie.read_mouse_info|X10 coordinate x not modulo 256"),
     Mut("meta-fold-test-as-prefix", _E, "process_keyqueue", 'run[0].find("meta ") >= 0', 'run[0].startswith("meta ")', "SIB|display.escape.process_keyqueue|'meta' tested as a prefix"),
     Mut("sgr-mouse-fields-straight-to-int", "urwid/display/escape.py", "KeyqueueTrie.read_sgrmouse_info", "        if not all(field.isascii() and field.isdigit() for field in fields):\n            # int() would also take signs, blanks and underscores: not a known sequence\n            return None\n", "", "TAINT|display.escape.KeyqueueTrie.read_sgrmouse_info|terminal text to int() without digit test"),
     Mut("sgr-mouse-fields-isdigit-only", "urwid/display/escape.py", "KeyqueueTrie.read_sgrmouse_info", "field.isascii() and field.isdigit()", "field.isdigit()", "TAINT|display.escape.KeyqueueTrie.read_sgrmouse_info|terminal text to int() without digit test"),
